@@ -11,7 +11,7 @@ from direct.nn.types import ActivationType, InitType, ModelName
 @dataclass
 class ConjGradNetConfig(ModelConfig):
     num_steps: int = 8
-    image_init: str = InitType.ZEROS
+    image_init: InitType = InitType.ZEROS
     no_parameter_sharing: bool = True
     cg_tol: float = 1e-7
     cg_iters: int = 10
